@@ -26,6 +26,9 @@
 //@type std::map<(Pomerol::)?FockState, (Pomerol::)?MelemType.*>|std::map<boost::dynamic_bitset<.*>, double.*> => FockMap ptr
 //@type std::map<(Pomerol::)?FockState, (Pomerol::)?MelemType.*>::(const_)?iterator|std::_Rb_tree_(const_)?iterator<std::pair<const boost::dynamic_bitset<.*>, double> ?>(::(iterator|_Self))?|std::map<boost::dynamic_bitset<.*>, double.*>::(const_)?iterator => FockMapIt val
 //@type Eigen::SelfAdjointEigenSolver<.*> => EigSolver ptr
+//@type (const )?Eigen::Diagonal<(const )?Eigen::Matrix<double, -1, -1(, 1)?(, -1, -1)?>(, 0)?> => DiagView val
+/* `vector = matrix.diagonal()` (not used by the current code; stubs/dense.h) */
+//@rename RealVector_assign(DiagView) => RealVector_assign_diag
 //@record Pomerol::BlockNumber => BlockNumber val
 //@record Pomerol::IndexHamiltonian => struct Operator ptr
 //@tu src/pomerol/HamiltonianPart.cpp
